@@ -897,6 +897,9 @@ func (g *gen) trivialQ() M {
 func (g *gen) behC01() M {
 	cfg := baseCfg()
 	cfg["auth"] = "clear"
+	if g.chance(0.2) {
+		cfg["auth"] = g.pick("custom-ok", "custom-fail") // an authentication strategy of the user's own
+	}
 	cfg["mw"] = []any{"ok"}
 	cfg["term"] = "ok"
 	cfg["limit"] = 8192
